@@ -506,7 +506,7 @@ def cholesky_band(l, mininf=0.0):
     #
     # Restore padding.
     #
-    L = np.zeros(l.shape, dtype=l.dtype)
+    L = np.zeros(l.shape, dtype=np.result_type(l.dtype, np.float32))
     L[:, 0:n] = lower
     return (-1, L)
 
